@@ -150,47 +150,50 @@ Lemma step_good09 : forall s e, Good09 s -> ev_in09 e = true -> safe_ev09 s e = 
   Good09 (fst (step s e)) /\ expected09 e (snd (step s e)) = true.
 Proof.
   intros s e G I S. unfold Good09 in *.
+  pose proof (apply_good lops09 [P1] safe09 expect09 R09 CHK09) as AG.
+  pose proof (apply_expect lops09 [P1] safe09 expect09 R09 CHK09 GRP09) as AE.
   destruct e as [T a n|T a n|T a n|T a n|m|c T|k T|T|T|T a]; unfold ev_in09 in I; try discriminate;
     unfold step; unfold safe_ev09 in S.
   - (* Read *)
-    split. { apply (apply_good lops09 [P1] safe09 expect09 R09 CHK09); auto. }
-    destruct T; unfold expected09; auto.
-    apply (apply_expect lops09 [P1] safe09 expect09 R09 CHK09 GRP09 s (LGet Pub a n)); auto.
+    split; [apply AG; [exact G|exact I|reflexivity]|].
+    destruct T; unfold expected09; try reflexivity.
+    apply (AE s (LGet Pub a n) G I eq_refl eq_refl).
   - (* Has *)
-    split. { apply (apply_good lops09 [P1] safe09 expect09 R09 CHK09); auto. }
-    destruct T; unfold expected09; auto.
-    apply (apply_expect lops09 [P1] safe09 expect09 R09 CHK09 GRP09 s (LHas Pub a n)); auto.
+    split; [apply AG; [exact G|exact I|reflexivity]|].
+    destruct T; unfold expected09; try reflexivity.
+    apply (AE s (LHas Pub a n) G I eq_refl eq_refl).
   - (* Import *)
     assert (Hr : forall a n p, In (a, n, p) (import_reads m) ->
                  lop_in lops09 (LGet Pub a n) = true /\ (forall s', safe_at safe09 s' (LGet Pub a n) = true)
                  /\ forall t oc, expect09 t (LGet Pub a n) oc = true -> oc = OSame).
-    { intros a n p H. split; [eapply import_reads_in; eauto|]. split; [reflexivity|].
+    { intros a n p H. split; [eapply import_reads_in; exact H|]. split; [intros; reflexivity|].
       intros t oc X. apply outcome_eqb_eq in X. exact X. }
     pose proof (do_reads_good lops09 [P1] safe09 expect09 R09 CHK09 (import_reads m) s Pub OSame G
                   (fun a n p H => conj (proj1 (Hr a n p H)) (proj1 (proj2 (Hr a n p H))))) as G1.
     pose proof (do_reads_same lops09 [P1] safe09 expect09 R09 CHK09 GRP09 (import_reads m) s Pub G eq_refl Hr) as O1.
-    destruct (do_reads s Pub (import_reads m) OSame) as [s1 o]. cbn [fst snd] in *. subst o. split; [exact G1|reflexivity].
+    destruct (do_reads s Pub (import_reads m) OSame) as [s1 o]. cbn [fst snd] in *. subst o.
+    split; [exact G1|reflexivity].
   - (* Calc *)
     destruct (exists_tab s T) eqn:E; [|split; [exact G| destruct T; reflexivity]].
     assert (Hr : forall a n p, In (a, n, p) (calc_reads c) ->
                  lop_in lops09 (LGet T a n) = true /\ (forall s', safe_at safe09 s' (LGet T a n) = true)).
-    { intros a n p H. split; [eapply calc_reads_in; eauto|reflexivity]. }
-    split. { apply (do_reads_good lops09 [P1] safe09 expect09 R09 CHK09); auto. }
-    destruct T; unfold expected09; auto.
-    rewrite (do_reads_same lops09 [P1] safe09 expect09 R09 CHK09 GRP09 (calc_reads c) s Pub G E); auto.
-    intros a n p H. destruct (Hr a n p H) as [H1 H2]. split; auto. split; auto.
+    { intros a n p H. split; [eapply calc_reads_in; [exact I|exact H]|intros; reflexivity]. }
+    split; [apply (do_reads_good lops09 [P1] safe09 expect09 R09 CHK09); [exact G|exact Hr]|].
+    destruct T; unfold expected09; try reflexivity.
+    rewrite (do_reads_same lops09 [P1] safe09 expect09 R09 CHK09 GRP09 (calc_reads c) s Pub G E); [reflexivity|].
+    intros a n p H. destruct (Hr a n p H) as [H1 H2]. split; [exact H1|]. split; [exact H2|].
     intros t oc X. apply outcome_eqb_eq in X. exact X.
   - (* Init *)
-    split. { apply (apply_good lops09 [P1] safe09 expect09 R09 CHK09); auto. }
-    destruct T; unfold expected09; auto.
-    apply (apply_expect lops09 [P1] safe09 expect09 R09 CHK09 GRP09 s (LInit k Pub)); auto.
+    split; [apply AG; [exact G|exact I|exact S]|].
+    destruct T; unfold expected09; try reflexivity.
+    apply (AE s (LInit k Pub) G I S eq_refl).
   - (* New *)
     apply table_eqb_eq in I. subst T.
     destruct (exists_tab s P1) eqn:E; [split; [exact G|reflexivity]|].
     split; [|reflexivity].
     apply (new_good lops09 [P1] safe09 expect09 R09 CHK09); [exact G|left; reflexivity|exact E].
-  - destruct (exists_tab s T); split; auto.
-  - destruct (exists_tab s T); split; auto.
+  - destruct (exists_tab s T); split; try exact G; reflexivity.
+  - destruct (exists_tab s T); split; try exact G; reflexivity.
 Qed.
 
 Fixpoint safe_run09 (s : state) (h : list event) : Prop :=
